@@ -507,10 +507,10 @@ CLAUSES = [
     Clause('random', check_case, kind='random',
            strategy=lambda: lang_and_model({'max_assets': 5, 'max_expr_depth': 3},
                                            {'max_assets': 6, 'attackers': False, 'defenses': False}),
-           budget={'quick': 8000, 'thorough': 80000}, memory_is_violation=True),
+           budget={'quick': 8000, 'thorough': 150000}, memory_is_violation=True),
     Clause('edited-models', check_edited, kind='random', strategy=lambda: _edited_cases(),
-           budget={'quick': 1600, 'thorough': 16000}),
+           budget={'quick': 1600, 'thorough': 48000}),
     Clause('corelang-models', check_corelang, kind='random',
            strategy=lambda: corelang_models(max_assets=7, attackers=False, defenses=False).map(lambda m: {'model': m}),
-           budget={'quick': 640, 'thorough': 8000}),
+           budget={'quick': 640, 'thorough': 24000}),
 ]
